@@ -98,3 +98,343 @@ def replay_prox1d(args, model):
     tol = 1e-9 * (1 + abs(obj(best)))
     return dict(confirmed=bool(gap > tol), detail=f'prox={r} obj={obj(r)} ; competitor v={best} obj={obj(best)} ; gap={gap}',
                 inputs=dict(vals, x=x, s=s))
+
+
+def _scad_pieces(a, g, av):
+    """the documented SCAD pieces at |t| = av (explicit piece: no If in the query)"""
+    import z3
+    return [('lin', av <= a, a * av),
+            ('quad', z3.And(av > a, av <= a * g), (2 * a * g * av - av * av - a * a) / (2 * (g - 1))),
+            ('flat', av > a * g, a * a * (g + 1) / 2)]
+
+
+def scad_contract(a, g, r, x, s, v):
+    """contract of prox_funcs:prox_SCAD(x, s, alpha, gamma) -> r, stated for a competitor v.
+    requires alpha > 0, gamma > 2, 0 < s < gamma - 1
+    ensures  sign(r) agrees with sign(x)  and  obj(r) <= obj(v)"""
+    import z3
+    sp = S.SCADSpec(a, g)
+    pre = [a > 0, g > 2, s > 0, s < g - 1]
+    sign = z3.And(z3.Implies(x >= 0, r >= 0), z3.Implies(x <= 0, r <= 0))
+    gmin = S.prox_obj(sp, r, x, s) <= S.prox_obj(sp, v, x, s)
+    return pre, sign, gmin, sp
+
+
+def scad_task(T, shard):
+    """prox_funcs:prox_SCAD against `scad_contract`: the code picks the best of three candidates; the
+    obligation is that it beats every v.  split by code path x spec pieces of v and r x signs"""
+    import z3
+    from pv import sym, symrun
+    from pv.sproof import check_contract
+    symrun.install()
+    prox_SCAD = symrun.get('skglm.utils.prox_funcs', 'prox_SCAD')
+    a, g = z3.Real('alpha'), z3.Real('gamma')
+    x, s, v = z3.Real('x'), z3.Real('s'), z3.Real('v')
+    pre, _, _, sp = scad_contract(a, g, z3.Real('r'), x, s, v)
+
+    def build():
+        return prox_SCAD(sym.SymReal(x), sym.SymReal(s), sym.SymReal(a), sym.SymReal(g))
+
+    def post(out, p):
+        r = sym.lift(out)
+        cases = [('sign-preserved', [], scad_contract(a, g, r, x, s, v)[1])]
+        for sx, cx in (('x>=0', x >= 0), ('x<0', x < 0)):
+            for sg, c, absv in (('v>=0', v >= 0, v), ('v<0', v < 0, -v)):
+                if sx[1:] != sg[1:]:
+                    # competitor on the other side of 0 than x: dominated by its mirror image -v, for which
+                    # the obligation is the same-sign case of this very path (used here as a lemma instance)
+                    # (phi(v) = phi(-v) is the separate obligation `spec-even`; phi values abstracted: the
+                    #  implication holds for every value of them, in particular the true ones)
+                    Pr, Pv = z3.Real('phi_r'), z3.Real('phi_v')
+                    o_r = (r - x) * (r - x) / 2 + s * Pr
+                    cases.append((f'global-min[{sx},{sg},mirror]',
+                                  [cx, c, o_r <= (-v - x) * (-v - x) / 2 + s * Pv],
+                                  o_r <= (v - x) * (v - x) / 2 + s * Pv))
+                    continue
+                for nm, pc, phiv in _scad_pieces(a, g, absv):
+                    for rs, rc, absr in (('r>=0', r >= 0, r), ('r<0', r < 0, -r)):
+                        for rn, rpc, phir in _scad_pieces(a, g, absr):
+                            cases.append((f'global-min[{sx},{sg},v-{nm},{rs},r-{rn}]', [cx, c, pc, rc, rpc],
+                                          (r - x) * (r - x) / 2 + s * phir <= (v - x) * (v - x) / 2 + s * phiv))
+        return cases
+
+    if shard[0] == 0:
+        T.cover('requires', pre)
+        T.prove('spec-even', pre, sp.phi(v) == sp.phi(-v))
+    check_contract(T, 'ensures', build, pre, post, shard=shard,
+                   replay=dict(fn='contracts.c07:replay_prox1d', args=dict(tag='SCAD')))
+
+
+for _i in range(16):
+    add_task(['C07'], 'prox_funcs:prox_SCAD', scad_task, shard=(_i, 16))
+
+
+class stubbed:
+    """modular verification: inside the block, `module.name` is replaced by a stub that returns a fresh
+    symbolic result constrained ONLY by the callee's contract (instantiated at the given terms)"""
+
+    def __init__(self, module, name, stub):
+        self.module, self.name, self.stub = module, name, stub
+
+    def __enter__(self):
+        self.orig = getattr(self.module, self.name)
+        setattr(self.module, self.name, self.stub)
+
+    def __exit__(self, *a):
+        setattr(self.module, self.name, self.orig)
+
+
+def scad_stub(inst_terms, calls):
+    """stub of prox_SCAD by contract; the forall-competitor clause is instantiated at `inst_terms`"""
+    import z3
+    from pv import sym
+
+    def stub(value, stepsize, alpha, gamma):
+        c = sym.ctx()
+        x, s, a, g = (sym.lift(t) for t in (value, stepsize, alpha, gamma))
+        r = sym.fresh('scad_r')
+        pre, sign, _, _ = scad_contract(a, g, r, x, s, x)
+        c.safety.append(('callee-requires:prox_SCAD', list(c.pc), list(c.defs), z3.And(*pre)))
+        c.defs.append(sign)
+        for t in inst_terms:
+            c.defs.append(scad_contract(a, g, r, x, s, t)[2])
+        calls.append((x, s, a, g, r))
+        c.notes.append(('call', 'prox_SCAD', r))
+        return sym.SymReal(r)
+    return stub
+
+
+def scad_prox1d_task(T):
+    """SCAD.prox_1d is a caller of prox_SCAD: checked against the callee's CONTRACT, not its body"""
+    import z3
+    from pv import sym, symrun
+    from pv.sproof import check_contract
+    symrun.install()
+    import skglm.penalties.separable as sepmod
+    case = by_tag('SCAD')
+    zv = _sym_vals(case)
+    x, s, v = z3.Real('x'), z3.Real('s'), z3.Real('v')
+    sp = case.spec(zv)
+    pre = [sp.params_ok(), s > 0, sp.step_ok(s), zv['alpha'] > 0]
+    calls = []
+
+    def build():
+        with stubbed(sepmod, 'prox_SCAD', scad_stub([v], calls)):
+            pen = case.instantiate({k: sym.SymReal(e) for k, e in zv.items()}, wrap='sym')
+            return pen.prox_1d(sym.SymReal(x), sym.SymReal(s), J)
+
+    def post(out, p):
+        r = sym.lift(out)
+        return [('global-min', [], S.prox_obj(sp, r, x, s) <= S.prox_obj(sp, v, x, s))]
+
+    T.cover('requires', pre)
+    check_contract(T, 'prox_1d', build, pre, post,
+                   replay=dict(fn='contracts.c07:replay_prox1d', args=dict(tag='SCAD')))
+    if not calls:
+        T.failed('prox_1d/calls-prox_SCAD', 'SCAD.prox_1d no longer calls prox_SCAD: contract target drift')
+
+
+add_task(['C07'], 'separable:SCAD.prox_1d', scad_prox1d_task)
+
+
+def mcp_contract(a, g, positive, weight, r, x, s, v):
+    """contract of prox_funcs:prox_MCP(x, s, alpha, gamma, positive, weight) -> r for a competitor v.
+    requires alpha >= 0, gamma > 0, weight >= 0, s > 0, weight * s < gamma
+    ensures  r in dom, sign(r) agrees with sign(x), obj(r) <= obj(v) for v in dom"""
+    import z3
+    sp = S.MCPSpec(a, g, positive, weight)
+    pre = [a >= 0, g > 0, weight >= 0, s > 0, weight * s < g]
+    sign = z3.And(z3.Implies(x >= 0, r >= 0), z3.Implies(x <= 0, r <= 0))
+    dom = sp.dom(r)
+    dom = z3.BoolVal(True) if dom is True else dom
+    dv = sp.dom(v)
+    gmin = S.prox_obj(sp, r, x, s) <= S.prox_obj(sp, v, x, s)
+    if dv is not True:
+        gmin = z3.Implies(dv, gmin)
+    return pre, z3.And(sign, dom), gmin, sp
+
+
+def mcp_fn_task(T, positive):
+    import z3
+    from pv import sym, symrun
+    from pv.sproof import check_contract
+    symrun.install()
+    prox_MCP = symrun.get('skglm.utils.prox_funcs', 'prox_MCP')
+    a, g, w = z3.Real('alpha'), z3.Real('gamma'), z3.Real('weight')
+    x, s, v = z3.Real('x'), z3.Real('s'), z3.Real('v')
+    pre = mcp_contract(a, g, positive, w, z3.Real('r'), x, s, v)[0]
+
+    def build():
+        return prox_MCP(sym.SymReal(x), sym.SymReal(s), sym.SymReal(a), sym.SymReal(g), positive, sym.SymReal(w))
+
+    def post(out, p):
+        r = sym.lift(out)
+        _, sd, gm, _ = mcp_contract(a, g, positive, w, r, x, s, v)
+        return [('sign-and-domain', [], sd), ('global-min[v>=0]', [v >= 0], gm), ('global-min[v<0]', [v < 0], gm)]
+
+    T.cover('requires', pre)
+    check_contract(T, 'ensures', build, pre, post,
+                   replay=dict(fn='contracts.c07:replay_prox1d',
+                               args=dict(tag=f'WeightedMCPenalty[positive={positive}]', weight_name='weight')))
+
+
+for _pos in (False, True):
+    add_task(['C07'], f'prox_funcs:prox_MCP[positive={_pos}]', mcp_fn_task, positive=_pos)
+
+
+def mcp_stub(inst_terms, calls):
+    import z3
+    from pv import sym
+
+    def stub(value, stepsize, alpha, gamma, positive=False, weight=1.):
+        c = sym.ctx()
+        x, s, a, g, w = (sym.lift(t) for t in (value, stepsize, alpha, gamma, weight))
+        r = sym.fresh('mcp_r')
+        pre, sd, _, _ = mcp_contract(a, g, bool(positive), w, r, x, s, x)
+        c.safety.append(('callee-requires:prox_MCP', list(c.pc), list(c.defs), z3.And(*pre)))
+        c.defs.append(sd)
+        for t in inst_terms:
+            c.defs.append(mcp_contract(a, g, bool(positive), w, r, x, s, t)[2])
+        calls.append((x, s, a, g, r))
+        c.notes.append(('call', 'prox_MCP', r))
+        return sym.SymReal(r)
+    return stub
+
+
+# ------------------------------------------------------------------ block proxes, Gram abstraction [U]
+
+BLOCK = {
+    # tag: (module, class, real-valued params, flags, radial spec builder psi(norm))
+    'L2_1': ('skglm.penalties.block_separable', 'L2_1', ['alpha'], lambda v: S.L1Spec(v['alpha'])),
+    'BlockMCPenalty': ('skglm.penalties.block_separable', 'BlockMCPenalty', ['alpha', 'gamma'],
+                       lambda v: S.MCPSpec(v['alpha'], v['gamma'])),
+    'BlockSCAD': ('skglm.penalties.block_separable', 'BlockSCAD', ['alpha', 'gamma'],
+                  lambda v: S.SCADSpec(v['alpha'], v['gamma'])),
+}
+
+
+def block_prox_task(T, tag):
+    """prox_1feat(x, s, j) on an abstract vector x: global minimiser of 0.5||u-x||^2 + s*psi(||u||)
+    against an arbitrary competitor v of an arbitrary-dimensional space (Gram abstraction)"""
+    import z3
+    from pv import sym, symrun
+    from pv.symvec import Gram
+    from pv.sproof import check_contract
+    symrun.install()
+    import importlib
+    mod, cls, params, mk = BLOCK[tag]
+    zv = {n: z3.Real(n) for n in params}
+    sp = mk(zv)
+    s = z3.Real('s')
+    gram = Gram(['x', 'v'])
+    nv = z3.Real('norm_v')
+    pre = [sp.params_ok(), s > 0, sp.step_ok(s)] + gram.psd_constraints() + [nv >= 0, nv * nv == gram.ip('v', 'v')]
+    if tag == 'BlockSCAD':
+        pre.append(zv['alpha'] > 0)
+    from pv.sproof import zpre
+    pre = zpre(pre)
+    pre_scalar = zpre([sp.params_ok(), s > 0, sp.step_ok(s)] + ([zv['alpha'] > 0] if tag == 'BlockSCAD' else []))
+
+    t = z3.Real('t')
+    d_v = (gram.gen('v') - gram.gen('x')).sqnorm().e
+    Gxx = gram.ip('x', 'x')
+
+    blk = importlib.import_module(mod)
+    calls = []
+
+    def build():
+        # modular: the scalar proxes are replaced by their contracts (instantiated at the competitor norm t)
+        with stubbed(blk, 'prox_SCAD', scad_stub([t], calls)), stubbed(blk, 'prox_MCP', mcp_stub([t], calls)):
+            pen = getattr(blk, cls)(**{k: sym.SymReal(e) for k, e in zv.items()})
+            out = pen.prox_1feat(gram.gen('x'), sym.SymReal(s), 0)
+            # ||x|| as the code's own let-variable (sqrt terms are shared per path)
+            return out, gram.gen('x').norm()
+
+    def pieces(av):
+        a, g = zv['alpha'], zv.get('gamma')
+        if tag != 'BlockSCAD':
+            return [('any', z3.BoolVal(True), sp.phi(av))]
+        return [('lin', av <= a, a * av),
+                ('quad', z3.And(av > a, av <= a * g), (2 * a * g * av - av * av - a * a) / (2 * (g - 1))),
+                ('flat', av > a * g, a * a * (g + 1) / 2)]
+
+    def post(out, p):
+        out, nxs = out
+        nx = nxs.e
+        r = out if not isinstance(out, (int, float)) else gram.zero()
+        extra = [k for k in r.coefs if k != 'x']
+        c = sym.lift(r.coefs.get('x', 0))
+        d_r = (r - gram.gen('x')).sqnorm().e
+        nr = c * nx
+        cases = [('result-is-a-nonnegative-multiple-of-x', [], z3.And(c >= 0, z3.BoolVal(not extra))),
+                 ('norm-of-result', [], z3.And(r.sqnorm().e == nr * nr, nr >= 0)),
+                 ('collinear', [], d_r == (nr - nx) * (nr - nx))]
+        callee = [n for n in p.notes if n[0] == 'call']
+        if callee:
+            # the scalar prox was called (by contract): ||result|| is the callee's result, and the radial
+            # obligation is the callee's ensures instantiated at t
+            r0 = callee[-1][2]
+            cases.append(('norm-of-result-is-scalar-prox', [], nr == r0))
+            cases.append(('radial-min', [t >= 0],
+                          (r0 - nx) * (r0 - nx) / 2 + s * sp.phi(r0) <= (t - nx) * (t - nx) / 2 + s * sp.phi(t),
+                          dict(pre=pre_scalar)))
+        else:
+            cases.append(('radial-min', [t >= 0],
+                          (nr - nx) * (nr - nx) / 2 + s * sp.phi(nr) <= (t - nx) * (t - nx) / 2 + s * sp.phi(t),
+                          dict(pre=pre_scalar)))
+        return cases
+
+    nx = z3.Real('norm_x')
+    pre_l = pre + [nx >= 0, nx * nx == Gxx]
+    T.cover('requires', pre)
+    # path-independent lemmas, machine-checked here: Cauchy-Schwarz from the PSD Gram matrix, and the
+    # composition  collinear + radial-min(t := ||v||) + Cauchy-Schwarz  =>  global minimality
+    T.prove('lemma:cauchy-schwarz', pre_l, d_v >= (nv - nx) * (nv - nx))
+    Dr, Dv, Nr, Pr, Pv = z3.Reals('Dr Dv Nr Pr Pv')
+    T.prove('lemma:compose', [s > 0, Dr == (Nr - nx) * (Nr - nx), Dv >= (nv - nx) * (nv - nx),
+                              (Nr - nx) * (Nr - nx) / 2 + s * Pr <= (nv - nx) * (nv - nx) / 2 + s * Pv],
+            Dr / 2 + s * Pr <= Dv / 2 + s * Pv)
+    check_contract(T, 'prox_1feat', build, pre, post,
+                   replay=dict(fn='contracts.c07:replay_block_prox', args=dict(tag=tag)))
+
+
+for _t in BLOCK:
+    add_task(['C07'], f'block_separable:{_t}.prox_1feat', block_prox_task, tag=_t)
+
+
+def _gram_vectors(model, names):
+    """concrete vectors with the model's Gram matrix (eigen-decomposition), dimension len(names)"""
+    n = len(names)
+    G = np.zeros((n, n))
+    for i, a in enumerate(names):
+        for j, b in enumerate(names):
+            G[i, j] = _fl(model, f'G_{a}_{b}' if i <= j else f'G_{b}_{a}', 0.0)
+    w, U = np.linalg.eigh((G + G.T) / 2)
+    V = (U * np.sqrt(np.maximum(w, 0))).T      # columns = vectors
+    return [np.ascontiguousarray(V[:, i]) for i in range(n)]
+
+
+def replay_block_prox(args, model):
+    import importlib
+    from skglm.utils.jit_compilation import compiled_clone
+    mod, cls, params, mk = BLOCK[args['tag']]
+    vals = {n: _fl(model, n, 1.0) for n in params}
+    s = _fl(model, 's', 1.0)
+    x, v = _gram_vectors(model, ['x', 'v'])
+    x = np.concatenate([x, [0.0]])
+    v = np.concatenate([v, [0.0]])
+    sp = mk(vals)
+    inputs = dict(vals, s=s, x=x.tolist(), v=v.tolist())
+    try:
+        pen = compiled_clone(getattr(importlib.import_module(mod), cls)(**vals))
+        r = np.asarray(pen.prox_1feat(x.copy(), s, 0), dtype=float)
+    except Exception as ex:      # noqa
+        return dict(confirmed=True, detail=f'real prox_1feat raised {type(ex).__name__}: {ex}', inputs=inputs)
+    if not np.all(np.isfinite(r)):
+        return dict(confirmed=True, detail=f'non-finite result {r}', inputs=inputs)
+    obj = lambda u: 0.5 * float(np.sum((u - x) ** 2)) + s * sp.phi(float(np.linalg.norm(u)))
+    cands = [v, np.zeros_like(x), x] + [t * x for t in np.linspace(0, 1.5, 301)]
+    best = min(cands, key=obj)
+    gap = obj(r) - obj(best)
+    return dict(confirmed=bool(gap > 1e-9 * (1 + abs(obj(best)))), detail=f'prox={r} obj={obj(r)}; competitor {best} obj={obj(best)}; gap={gap}',
+                inputs=inputs)
